@@ -25,11 +25,20 @@ func vhRegisterField(i int, class int, base uint16, units [2]uint8) (Field, int,
 	// the first field is on server 0 / unit 0 without loss of generality (servers and unit ids are interchangeable
 	// symbols: the code under test only compares them for equality)
 	si, ui := 0, 0
-	if i > 0 {
-		si = vndChoice("server", 2)
-		ui = vndChoice("unitidx", 2)
+	off := vhOffsets[0]
+	if vndParam("same") == 1 {
+		// every field on the same device and at the same address (aliases of the same registers)
+	} else if vndParam("same") == 2 {
+		// every field on the same device, field i at the i-th offset of the set (0, 1, 3, 124): with a long first field
+		// the later ones are nested inside it
+		off = vhOffsets[i]
+	} else {
+		if i > 0 {
+			si = vndChoice("server", 2)
+			ui = vndChoice("unitidx", 2)
+		}
+		off = vhOffsets[vndChoice("offset", len(vhOffsets))]
 	}
-	off := vhOffsets[vndChoice("offset", len(vhOffsets))]
 	f.ServerAddress = vhServers[si]
 	f.UnitID = units[ui]
 	f.Address = base + uint16(off)
